@@ -72,16 +72,30 @@ fn case_requests_immodest_size(case_text: &str) -> bool {
             run = 0;
         }
     }
+    // the same in hexadecimal: 0x followed by nine or more digits
+    let b = calls.as_bytes();
+    let mut i = 0;
+    while i + 1 < b.len() {
+        if b[i] == b'0' && (b[i + 1] == b'x' || b[i + 1] == b'X') {
+            let n = b[i + 2..].iter().take_while(|c| c.is_ascii_hexdigit() || **c == b'_').count();
+            if n >= 9 {
+                return true;
+            }
+        }
+        i += 1;
+    }
     calls.contains("random")
 }
 
-/// C08's proviso (and only C08's): a case stopped by the memory guard is outside the statement
+/// C08's proviso: a case stopped by the memory guard is outside the statement
 /// when the program itself asked for the memory. Returns the probe to count, or None if the death
 /// has to be treated like any other abort.
 fn outside_proviso(plan: &RunPlan, code: Option<i32>, cur_path: &str) -> Option<&'static str> {
-    if plan.info.prop != "C08" {
-        return None;
-    }
+    // The rule was written for C08; it holds for every engine, since all of them run generated
+    // programs that may leave a giant integer on the stack and later reach a size operand with it
+    // (typically a failed instruction re-executed with the stack shifted). No other property
+    // says anything about memory.
+    let _ = &plan.info.prop;
     match code {
         Some(EXIT_FOOTPRINT) => Some("probe.case_abandoned_memory_footprint_over_3GiB"),
         Some(EXIT_IMMODEST_REQUEST) => {
@@ -396,7 +410,15 @@ pub fn run_engine(plan: &RunPlan) -> EngineReport {
             if m != slots[k].last_marker {
                 slots[k].last_marker = m;
                 slots[k].last_change = Instant::now();
-            } else if slots[k].last_change.elapsed().as_secs_f64() > plan.hang_secs {
+            } else if slots[k].last_change.elapsed().as_secs_f64()
+                > (if slots[k].last_marker.contains("\"done\":true") {
+                    // all cases ran; the shard is writing its report (tens of millions of hashes on
+                    // a loaded machine took longer than the per-case allowance once)
+                    plan.hang_secs.max(1200.0)
+                } else {
+                    plan.hang_secs
+                })
+            {
                 let mut slot = slots.remove(k);
                 let _ = slot.child.kill();
                 let _ = slot.child.wait();
